@@ -215,7 +215,7 @@ enum GNode {
 }
 
 const VALUES: &[(&str, &str)] = &[("1", "1"), ("2", "2"), ("a&amp;b", "a&b"), ("&lt;", "<"), ("'", "'"), ("&quot;", "\""), ("é", "é"), ("a b", "a b"), ("&#10;", "\n"), ("&#9;", "\t"), ("", "")];
-const URIS: &[(&str, &str)] = &[("u", "u"), ("v", "v"), ("w", "w"), ("", ""), ("http://www.w3.org/XML/1998/namespace", "http://www.w3.org/XML/1998/namespace"), ("a&amp;b", "a&b")];
+const URIS: &[(&str, &str)] = &[("u", "u"), ("v", "v"), ("w", "w"), ("", ""), ("u1", "u1"), ("u2", "u2"), ("a", "a"), ("b", "b"), (" u", " u"), ("u ", "u "), ("http://www.w3.org/XML/1998/namespace", "http://www.w3.org/XML/1998/namespace"), ("a&amp;b", "a&b")];
 
 fn gen_elem(rng: &mut Rng, depth: usize, budget: &mut usize) -> GNode {
     *budget = budget.saturating_sub(1);
@@ -244,7 +244,7 @@ fn gen_elem(rng: &mut Rng, depth: usize, budget: &mut usize) -> GNode {
     }
     for _ in 0..na {
         let ap = *rng.pick(&["", "", "p", "q", "r", "xml"]);
-        let al = if wide && !rng.chance(1, 8) { *rng.pick(&WIDE_LOCALS) } else { *rng.pick(&["x", "y", "z", "xmlns", "lang", "p", "q"]) };
+        let al = if wide && !rng.chance(1, 8) { *rng.pick(&WIDE_LOCALS) } else { *rng.pick(&["x", "y", "z", "xmlns", "lang", "p", "q", "X", "Y", "Z", "xo", "xP", "y1", "Z0"]) };
         if ap.is_empty() && al == "xmlns" {
             continue;
         }
@@ -494,6 +494,26 @@ pub fn run(args: &Args) -> (Meta, Stats) {
                 st.count("targeted_cases");
             }
         }
+        if shard == nshards.min(2) - 1 {
+            // one very deep document (more than 2^16 open elements between a declaration and its use):
+            // scope bookkeeping kept in a narrower integer would wrap here
+            let depth = 65536 + (seed % 2) as usize;
+            let mut deep = String::from("<r xmlns:p=\"u\" xmlns=\"d\">");
+            deep.push_str(&"<a>".repeat(depth));
+            // closing elements 65535, 65536 and 65537 levels below the declaring one, then using its bindings
+            deep.push_str("<b></b></a></a></a><p:x p:k=\"1\"/><y/>");
+            // (the tags are given to the oracle directly; no second, tokenizer-only pass over 200 KB)
+            let xn = |p: Option<&str>, l: &str| XName { prefix: p.map(|s| s.to_string()), ns: String::new(), local: l.to_string() };
+            let mut specs: Vec<TagSpec> = vec![(xn(None, "r"), vec![(xn(Some("xmlns"), "p"), "u".to_string()), (xn(None, "xmlns"), "d".to_string())])];
+            specs.extend(std::iter::repeat((xn(None, "a"), vec![])).take(depth));
+            specs.push((xn(None, "b"), vec![]));
+            specs.push((xn(Some("p"), "x"), vec![(xn(Some("p"), "k"), "1".to_string())]));
+            specs.push((xn(None, "y"), vec![]));
+            if let Some((sig, d)) = check_input(&deep, Some(&specs), st) {
+                st.violation(&format!("deep:{sig}"), &format!("<r xmlns:p=\"u\" xmlns=\"d\"> + {depth} x <a> + <b></b></a></a></a><p:x p:k=\"1\"/><y/>: {d}"), json!({"input": deep}));
+            }
+            st.count("deep_documents(65535+ open elements)");
+        }
         while !expired(deadline) {
             let mut budget = rng.range(1, 14);
             let doc = gen_elem(&mut rng, 0, &mut budget);
@@ -531,6 +551,7 @@ pub fn run(args: &Args) -> (Meta, Stats) {
         ("permutation_runs".into(), 500),
         ("tags_with_33_or_more_attributes".into(), 100),
         ("token_fed_runs".into(), 1000),
+        ("deep_documents(65535+ open elements)".into(), 1),
     ];
     (m, st)
 }
